@@ -134,7 +134,7 @@ def gen_stun_long(rng):
     attrs = b''
     while len(attrs) < 256:
         attrs += rng.choice([stun_attr(0x8022, rng.bytes(rng.below(40))), stun_attr(6, rng.bytes(1 + rng.below(16))),
-                             stun_attr(3, struct.pack('>I', rng.choice([0, 2])))])
+                             stun_attr(3, struct.pack('>I', rng.choice([0, 2, 2, 6, 4])))])
     return b'\x00\x01' + struct.pack('>H', len(attrs)) + b'\x21\x12\xa4\x42' + rng.bytes(12) + attrs
 
 
@@ -337,6 +337,9 @@ def gen_app(rng, tcp=False, kinds=None):
         return k, None, rng.bytes(rng.below(40))
     g, faults = APP_GENS[k]
     fault = rng.choice(faults)
+    if k == 'stun' and tcp and fault is None and rng.chance(1, 2):
+        # over TCP only the cookie-bearing form with >= 256 attribute bytes is identified
+        return k, None, gen_stun_long(rng)
     return k, fault, g(rng, fault)
 
 
